@@ -8,10 +8,10 @@ from mc.core import viol
 
 ID = 'C09'
 LEVEL = 'model_checking'
-RULE = ('explicit-state BFS over histories of runs on ONE recorder object: 39-letter run alphabet (record ok / raising / interrupted in the '
+RULE = ('explicit-state BFS over histories of runs on ONE recorder object: 46-letter run alphabet (record ok / raising / interrupted in the '
         'operation, in an input body, in an output body / discarded by operation, body, key fault, handler fault / sampled out / forced / '
         'forced-but-ignored / many outputs / skipped class / disabled / failing save / failing extractor / worker-thread interception; '
-        'replay ok / with outputs / missing id / escaping missing key / playback function raising or interrupted / operation raising); '
+        'the storage failing to abort a dropped recording / force and discard called with no active recording; replay ok / with outputs / missing id / of a recording not written by a recorder / escaping missing key / playback function raising or interrupted / operation raising); '
         'state = canon(vars(recorder)) + interception flag on main and pool thread; searched to closure, and additionally EVERY history up '
         'to the depth bound is followed by each of 10 differential probes compared with the same probe on a fresh recorder. Non-trivial = '
         'history with at least one abnormal run.')
@@ -63,6 +63,15 @@ RUNS = {
     # replays of OTHER recordings (the studio replays many recordings through one recorder)
     'play-fallback-of-old-recording': ('play-r1', {'steps': [{'fn': 'in_fb', 'a': ['x1']}, O1]}),
     'play-recording-without-new-output': ('play', {'steps': [O1, {'fn': 'out_nf', 'a': ['x1']}, O2]}),
+    # failures of the storage at the moment a recording is dropped; recordings that did not come from this recorder; control calls made
+    # when no recording is active (skipped class, during a replay, between runs)
+    'rec-sampled-out-abort-raises': ('rec-abort-raises', {'steps': BASE, 'cls': 'K0'}),
+    'rec-discard-abort-raises': ('rec-abort-raises', {'steps': [O1, {'do': 'discard'}, A]}),
+    'play-foreign-recording': ('play-foreign', {'steps': BASE}),
+    'rec-skipped-forced': ('rec', {'steps': [{'do': 'force'}] + BASE, 'cls': 'Ks'}),
+    'play-forced': ('play', {'steps': [{'do': 'force'}] + BASE}),
+    'play-discards': ('play', {'steps': [O1, {'do': 'discard'}, A, O2]}),
+    'control-calls-while-idle': ('idle-controls', {'steps': []}),
 }
 NORMAL = ('rec-ok', 'play-ok')
 PROBES = ['rec', 'play', 'rate0', 'thread', 'rec-K0-forced', 'rec-interrupted', 'rec-raise-flex', 'rec-nested', 'play-new-alias', 'play-new-output']
@@ -90,6 +99,10 @@ class World(object):
         self.r1 = P.record({'steps': [{'fn': 'in_a', 'a': ['x1'], 'ret': 'u1'}, O1]}, env=self.env).rec_id
         self.r2 = P.record({'steps': [{'fn': 'in_fb', 'a': ['x1'], 'ret': 'u2'}, O1]}, env=self.env).rec_id
         self.r3 = P.record({'steps': [O1, {'fn': 'out_nf', 'a': ['x1'], 'ret': 'u3'}, O2]}, env=self.env).rec_id
+        fr = self.env.inner.create_new_recording('Op')
+        fr.set_data('note', 'written through the cassette API')
+        self.env.inner.save_recording(fr)
+        self.foreign = fr.id
 
     def close(self):
         self.pw.stop()
@@ -129,6 +142,21 @@ class World(object):
                 return P.record(prog, env=env)
             finally:
                 env.spy.bad_meta = False
+        if kind == 'rec-abort-raises':
+            env.spy.abort_raises = True
+            try:
+                return P.record(prog, env=env)
+            finally:
+                env.spy.abort_raises = False
+        if kind == 'play-foreign':   # a recording written through the cassette API, not by a recorder: no duration, no operation output
+            return P.replay(env, self.foreign, prog)
+        if kind == 'idle-controls':
+            for f in (env.tr.force_sample_recording, env.tr.discard_recording):
+                try:
+                    f()
+                except Exception:
+                    pass
+            return None
         if kind == 'play':
             return P.replay(env, self.fixed, prog)
         if kind == 'play-missing-id':
